@@ -3,6 +3,7 @@ package readsim
 import (
 	"fmt"
 	"net/url"
+	"strconv"
 	"strings"
 
 	"github.com/metrico/qryn/zz_verif/sqlfake"
@@ -152,10 +153,17 @@ func (r Req) URL() (method, path string) {
 		}
 		set("leftQuery", pq)
 		set("rightQuery", pq)
-		set("leftFrom", r.Start)
-		set("leftUntil", r.End)
-		set("rightFrom", r.Start)
-		set("rightUntil", r.End)
+		// the endpoint takes milliseconds
+		ms := func(v string) string {
+			if ns, ok := reqTime(v); ok && len(v) >= 16 {
+				return strconv.FormatInt(ns/1000000, 10)
+			}
+			return v
+		}
+		set("leftFrom", ms(r.Start))
+		set("leftUntil", ms(r.End))
+		set("rightFrom", ms(r.Start))
+		set("rightUntil", ms(r.End))
 		return "GET", "/pyroscope/render-diff?" + q.Encode()
 	}
 	return "GET", "/api/v1/status/buildinfo"
@@ -164,7 +172,9 @@ func (r Req) URL() (method, path string) {
 var selectors = []string{`{app="x"}`, `{app="x", env=~"p.*"}`, `{app!="y", series=~"s[0-9]+"}`, `{job="a b", x!~"q"}`}
 var lineFilters = []string{``, ` |= "line"`, ` != "zzz"`, ` |~ "s[0-9] i"`, ` !~ "nomatch"`, ` |= "a\\.b" |~ "a\\.b"`}
 var stages = []string{``, ` | json`, ` | logfmt`, ` | json a="b.c", lvl="level"`, ` | line_format "{{.app}} {{.series}}"`, ` | label_format app2=app`, ` | app="x"`, ` | v > 5`, ` | drop app`,
-	` | json | level="info"`, ` | logfmt | line_format "{{.msg}}"`, ` | regexp "(?P<first>\\w+)"`, ` | json | unwrap v`, ` | logfmt | v >= 2.5 and level!="x"`, ` | json lvl="level" | lvl="error"`, ` | regexp "(?P<lvl>\\w+)" | lvl="info"`, ` | json lvl="level", n="v" | n > 2 | lvl!="x"`, ` | json | drop level | line_format "{{.v}}"`}
+	` | json | level="info"`, ` | logfmt | line_format "{{.msg}}"`, ` | regexp "(?P<first>\\w+)"`, ` | json | unwrap v`, ` | logfmt | v >= 2.5 and level!="x"`, ` | json lvl="level" | lvl="error"`, ` | regexp "(?P<lvl>\\w+)" | lvl="info"`, ` | json lvl="level", n="v" | n > 2 | lvl!="x"`, ` | json | drop level | line_format "{{.v}}"`,
+	// label filters on both sides of a parser (two fingerprint sub-selects in one plan)
+	` | app="x" | json lvl="level" | lvl="error"`, ` | series=~"s.*" | logfmt | level="info" | drop level`}
 var rangeFns = []string{"rate", "count_over_time", "bytes_rate", "bytes_over_time", "absent_over_time"}
 var unwrapFns = []string{"sum_over_time", "avg_over_time", "min_over_time", "max_over_time", "first_over_time", "last_over_time", "rate"}
 var aggs = []string{"sum", "avg", "min", "max", "count"}
